@@ -253,7 +253,8 @@ pub fn view_of(tree: &usvg::Tree, cfg: &str) -> Result<View, String> {
             let ts = tiny_skia::Transform::from_row(s, 0.0, 0.0, s, margin + fx - bb.x() * s, margin + fy - bb.y() * s);
             Ok(View { w, h, ts, crossing: false })
         }
-        "native" | "crop" => {
+        // "plain" = "native" without the no-crossing reference (direct vs isolated compared as they are)
+        "native" | "crop" | "plain" => {
             let (mut w, mut h) = ((size.width() * s).ceil().max(1.0), (size.height() * s).ceil().max(1.0));
             if w > 1500.0 || h > 1500.0 {
                 return Err("huge-size".into());
@@ -506,7 +507,7 @@ fn op_iso(payload: &str) -> String {
         None => return "{\"skip\":\"canvas\"}".into(),
     };
     let (pb, eb) = traced_render(&tb, v.w, v.h, v.ts).unwrap();
-    let reference = if v.crossing { reference_crop(&ta, &v) } else { None };
+    let reference = if v.crossing && !f[4].starts_with("plain") { reference_crop(&ta, &v) } else { None };
     let c = cmp_pixmaps_ref(&pa, &pb, reference.as_ref());
     let mut out = format!(
         "{{\"n0\":{},\"n1\":{},\"n8\":{},\"n32\":{},\"n64\":{},\"max\":{},\"nonblank\":{},\"layersA\":{},\"layersB\":{},\"groups\":{},\"W\":{},\"H\":{},\"crossing\":{},\"ref\":{},\"frame_bad\":{},\"ulp_flip\":{},\"ts\":[{},{},{},{},{},{}]",
